@@ -313,6 +313,11 @@ func c11KeyDoor(door, key string) cli.Res {
 		return cli.In("", "info", "key", "describe", "--key", key)
 	case "info-key-conv":
 		return cli.In("", "info", "key", "conv", "--key", key, "-c", "d")
+	case "chord-describe-target":
+		// the key's tonic as the root of a described chord
+		return cli.In("", "info", "chord", "describe", "-t", strings.TrimSuffix(key, "m")+"m7")
+	case "attr-describe-root":
+		return cli.In("", "info", "attr", "describe", "-t", "Major3", "-r", strings.TrimSuffix(key, "m"))
 	}
 	panic(door)
 }
@@ -403,7 +408,7 @@ func runC11(e *Env) {
 	var kc []c11KeyCase
 	for _, k := range []string{"Eb", "Bb", "F#", "C#", "F#m", "Ebm", "Bbm", "C#m", "Cb", "G#m"} {
 		u := strings.NewReplacer("#", "♯", "b", "♭").Replace(k[:len(k)-strings.Count(k, "m")]) + strings.Repeat("m", strings.Count(k, "m"))
-		for _, door := range []string{"syllable-metadata", "degree-metadata", "syllable-flag", "write-yaml", "write-flag", "info-key-describe", "info-key-conv"} {
+		for _, door := range []string{"syllable-metadata", "degree-metadata", "syllable-flag", "write-yaml", "write-flag", "info-key-describe", "info-key-conv", "chord-describe-target", "attr-describe-root"} {
 			kc = append(kc, c11KeyCase{door, k, u})
 		}
 	}
@@ -429,7 +434,7 @@ func runC11(e *Env) {
 		}
 	}
 	e.R.AddPart(ev.Part{Name: "look-alike-accidentals", Enumerated: "11 characters that look like a sharp or a flat (♯ ＃ ﹟ ⌗ 𝄰 𝄪 / ♭ ｂ 𝄬 𝄫 ᵇ) on a root and on a bass, in both notations: where the parser reports the character as an accidental, text conv refuses it or converts it like # / b", Executions: int64(lookN), Exhaustive: true})
-	e.R.AddPart(ev.Part{Name: "unicode-accidental-in-keys", Enumerated: "10 keys with an accidental x 7 doors a key can come through (text metadata in both notations, --key on text conv / write / info key describe / info key conv, key: in the instances document): the Unicode spelling is refused or gives the output of the ASCII spelling", Executions: int64(len(kc)), Exhaustive: true})
+	e.R.AddPart(ev.Part{Name: "unicode-accidental-in-keys", Enumerated: "10 keys with an accidental x 9 doors a key or note can come through (text metadata in both notations, --key on text conv / write / info key describe / info key conv, key: in the instances document, the root of `info chord describe -t`, `info attr describe -r`): the Unicode spelling is refused or gives the output of the ASCII spelling", Executions: int64(len(kc)), Exhaustive: true})
 	if len(bases) > 0 {
 		b := bases[len(bases)-4]
 		e.R.Sample(map[string]any{"canonical": c11Build(b.toks, mc.NewReplay(nil)), "variant_example": "C\t♯ _m7 [01 ,\n2]"})
